@@ -122,7 +122,7 @@ class Tx:
         self._sha_prevouts = None
         self._sha_amounts = None
         self._sha_script_pubkeys = None
-        self._sha_sequence = None
+        self._sha_sequences = None
         self._sha_outputs = None
 
     def __repr__(self):
